@@ -107,7 +107,7 @@ next_start:
 	} else {
 		n := self.p.nodeAt(self.i)
 		self.i++
-		if !n.Exists() {
+		if n.unset() {
 			goto next_start
 		}
 		return n
@@ -132,7 +132,7 @@ next_start:
 	} else {
 		n := self.p.pairAt(self.i)
 		self.i++
-		if n == nil || !n.Value.Exists() {
+		if n == nil || n.Value.unset() {
 			goto next_start
 		}
 		return n
